@@ -12,21 +12,22 @@ PER_SHARD = 8
 LEVEL_TEXT = ("Coq theorems over a Gallina model of exec_command_unregister / unregister_service / "
               "exec_command_unregister_resend / cleanup and the responder loop around them, for every state: the status "
               "reply is OK exactly for a registered lower-cased full name, exactly one reply, the service is removed and "
-              "every other service, registry and interface untouched; the goodbye is characterised (per interface and "
-              "family with an address in the subnet: PTR, subtype PTR, SRV, TXT, addresses, all TTL 0), equals the goodbye "
-              "the property asks for when the service was not renamed and is announced wherever it has addresses, is queued "
-              "once for now + 120 and repeated unchanged; shutdown says goodbye once per service and leaves nothing to "
-              "repeat; a pending second announcement of an unregistered service does nothing and no query is answered "
-              "without an announced service. The three places where the code departs from the property are proved as "
-              "refutations on witnesses taken from the real daemon. The executable statement chk_C09 (replies, goodbyes, "
-              "silence, judged against the model's state) runs as a monitor on the real daemon thread in the simulated world")
-TECHNIQUE = ("machine-checked proof in Coq (functional specification of the goodbye, frame property of unregister, witnesses "
-             "for the refuted clauses) + model/implementation correspondence on simulated-daemon histories")
+              "every other service, registry and interface untouched; the goodbye IS the one the property asks for "
+              "(C09_goodbye_is_the_specified_one: per interface where the service is announced and per family with an "
+              "address in the subnet: PTR, subtype PTR, SRV, TXT, addresses under the names most recently announced there, "
+              "all TTL 0), it is queued once for now + 120 and repeated unchanged on the same interface and family; shutdown "
+              "says goodbye once per service and leaves nothing to repeat; a pending second announcement of an unregistered "
+              "service does nothing and no query is answered without an announced service. The executable statement chk_C09 "
+              "(replies, goodbyes, silence, judged against the model's state) runs as a monitor on the real daemon thread in "
+              "the simulated world")
+TECHNIQUE = ("machine-checked proof in Coq (functional specification of the goodbye, frame property of unregister) + "
+             "model/implementation correspondence on simulated-daemon histories")
 LEVELS = "K6 (real ServiceDaemon thread in the simulated world: register / rename / re-register / unregister / shutdown)"
 RULE = ("simulated histories over 1-3 services and 1-2 interfaces: unregister at every phase (before the first probe, between "
         "probes, at completion, after the first / second announcement), unknown, differently-cased and truncated names, "
         "double unregister, re-registration (same and changed data), shutdown at every phase and after it, queries of every "
-        "type before and after, services renamed by injected conflicts. Non-trivial = at least one packet sent")
+        "type before and after, services renamed by injected conflicts, addr_auto services with interfaces disabled and "
+        "enabled. Non-trivial = at least one packet sent")
 TRUSTED = [
     "Coq 8.16.1 kernel (coqc); vm_compute only in Examples and witness lemmas",
     "axioms: none (Print Assumptions: Closed under the global context for every theorem)",
@@ -34,21 +35,18 @@ TRUSTED = [
     "tools/extract_params.py + tools/params/registry.py (+ 120 in both arms of exec_command_unregister, TTL constants)",
     "hooks: cargo feature verif-hooks (simulated world); harness/src/sim.rs attributes an IPv4 packet to the interface of "
     "the last set_multicast_if_v4 (what the socket would do); tools/dnsgen.py parses the packets",
-    "tools/props/reglib.py (projection, model input, interface-order choice)",
+    "tools/props/reglib.py (projection, model input, choice of interface order / jitter assignment)",
     "modelled, not verified: hash-container orders (sorted before comparison), non-ASCII lower-casing (generators use "
     "case variants of ASCII names only), what the hooks replace, the record cache",
 ]
 PARTIAL = ("The theorems are single-step statements for every state; that chk_C09 accepts every run of the daemon model "
-           "outside the three classes (in particular that no response ever carries a record of an unregistered service, over "
-           "whole histories) is validated on every generated history by running the monitor on the model's own output, not "
-           "proved. chk_C09 judges each iteration against the model's state before it; that state is validated against the "
-           "implementation by the correspondence on the same run. Histories keep the interface table constant. Findings "
-           "(known/C09.json): goodbyes carry the pre-rename names; a goodbye is also sent where the service was still "
-           "probing; the repeated IPv4 goodbye leaves on the interface of the last IPv4 send")
+           "(in particular that no response ever carries a record of an unregistered service, over whole histories) is "
+           "validated on every generated history by running the monitor on the model's own output, not proved. chk_C09 "
+           "judges each iteration against the model's state before it; that state is validated against the implementation "
+           "by the correspondence on the same run. No findings remain (the three of round 1 are repaired: goodbyes under "
+           "pre-rename names, goodbyes where the service was still probing, the IPv4 repeat on another interface)")
 
-KNOWN = {11: "C09-goodbye-uses-pre-rename-names", 12: "C09-goodbye-while-probing", 13: "C09-goodbye-while-probing",
-         14: "C09-goodbye-repeat-wrong-interface", 15: "C09-goodbye-repeat-wrong-interface",
-         16: "C09-goodbye-repeat-wrong-interface", 17: "C09-goodbye-repeat-wrong-interface"}
+KNOWN = {}
 
 
 def project(case_line, raw):
@@ -72,6 +70,7 @@ def generate(rng, tier):
     add(reglib.gen_conflict_history, 250 * k, "renamed")
     add(reglib.gen_registration_history, 80 * k, "reg")
     add(reglib.gen_two_daemon_history, 40 * k, "two")
+    add(reglib.gen_iface_toggle_history, 120 * k, "toggle")
     return cases
 
 
